@@ -422,6 +422,23 @@ func TestSpreadRequestsRapid(t *testing.T) {
 		if fmt.Sprint([]uint32(got)) != fmt.Sprint(want) && !(len(got) == 0 && len(want) == 0) {
 			rt.Fatalf("instance %d zone %d count %d taken %d: got %d tokens %v..., want %d tokens %v...", inst, zone, count, len(taken), len(got), head(got), len(want), head(want))
 		}
+		// the result belongs to the caller: whatever it does with the slice (lifecyclers sort, truncate and
+		// append to token slices) must not change what the same generator object answers later
+		if rapid.Bool().Draw(rt, "callerScribbles") && len(got) > 0 {
+			for i := range got {
+				got[i] = got[i]*2654435761 + 11
+			}
+			_ = append(got[:len(got)/2], 7, 7, 7)
+			again := g.GenerateTokens(count, taken)
+			vx.Class("second_request_after_the_caller_changed_the_first_result", 1)
+			if fmt.Sprint([]uint32(again)) != fmt.Sprint(want) && !(len(again) == 0 && len(want) == 0) {
+				rt.Fatalf("instance %d zone %d count %d: after the caller overwrote the slice it was given, the same generator returns %v..., want %v...", inst, zone, count, head(again), head(want))
+			}
+			again2 := g.GenerateTokens(512, nil)
+			if fmt.Sprint([]uint32(again2)) != fmt.Sprint(reserved) {
+				rt.Fatalf("instance %d zone %d: after the caller overwrote a result, the generator's reserved tokens changed: %v..., want %v...", inst, zone, head(again2), head(reserved))
+			}
+		}
 		if vx.WantSample("spread_request") {
 			vx.Sample("spread_request", map[string]any{"instance": inst, "zone": zone, "count": count, "taken": len(taken), "returned": len(got)})
 		}
